@@ -9,7 +9,7 @@ CFG = dict(
               "reader_steps_linear_ascii_faces", "reader_steps_linear_pts", "scanLines_length",
               "PolyVerif.Readers.ptsPoint_restriction"],
     harness_files=["c15.go"],
-    streams=[dict(name="c14", n=dict(quick=6, thorough=60), timeout=dict(quick=900, thorough=3000))],
+    streams=[dict(name="c14", n=dict(quick=8, thorough=300), timeout=dict(quick=900, thorough=3000))],
     trusted=T_COMMON + ["compress/gzip delivers a prefix of the decompressed stream and then an error (SPZ cut points are taken in the compressed stream; the model is applied to what gzip delivered)",
                         "bufio.Scanner / strings.Fields / strconv.ParseFloat/ParseInt/Atoi: modelled by scanLines/fields/goFloatOk/goInt? in Model/Readers.lean (decimal number syntax only), tied by correspondence at every byte cut",
                         "the parsed PLY header (counts, record size, list property sizes) is taken from the real ply.ReadHeader of the complete file; the model locates the body itself (skipHeader)"],
